@@ -444,6 +444,12 @@ impl Prop for C19 {
                                 "C19:truncation-wrong-line",
                                 format!("truncated to {} bytes inside a multi-byte character of line {}; the error carries line {l}: {msg}", bytes.len(), lines_present),
                             ),
+                            // the reader stood at the end of what is there: the last line present (if it is the one
+                            // that cannot be used) or the line after it
+                            Some(l) if l + 1 < lines_present.max(1) => x.violate(
+                                "C19:truncation-wrong-line",
+                                format!("truncated to {} bytes ({} lines present); the error carries line {l}, which is not where the input ends: {msg}", bytes.len(), lines_present),
+                            ),
                             Some(l) if l <= lines_present + 1 => {}
                             other => x.violate("C19:truncation-error-without-line", format!("truncated to {} bytes ({} lines present); error carries line {:?}: {msg}", bytes.len(), lines_present, other)),
                         }
